@@ -11,7 +11,7 @@ from .. import labelled as LB
 ID = "C02"
 LEVEL = "proof"
 PROP_FILE = "Properties/C02.v"
-PROOF_FILES = ["Proofs/SpfsFinal.v", "Proofs/SpfsProofs.v", "Proofs/ThlProofs.v", "Model/Spfs.v", "Model/Thl.v", "Model/Recon.v", "Model/Entry.v", "Model/Subseq.v", "Model/Toposort.v",
+PROOF_FILES = ["Proofs/AllAnyProofs.v", "Proofs/SpfsFinal.v", "Proofs/SpfsProofs.v", "Proofs/ThlProofs.v", "Model/Spfs.v", "Model/Thl.v", "Model/Recon.v", "Model/Entry.v", "Model/Subseq.v", "Model/Toposort.v",
                "Proofs/EntryProofs.v", "Proofs/SubseqProofs.v", "Proofs/LabelCostProofs.v", "Proofs/ToposortProofs.v"]
 TRUSTED = ["model Model/Spfs.v of _compute_spfs_entry/_compute_spfs_table/_decode_spfs_table/_spfs (after fix D5), on the Entry (C16), mask (C18), toposort (C19) and evaluator (C06) models"]
 ASSUMES = ["binary trees", "cost vectors with spe + 2*sloss <= dup + 2*floss for the optimality clauses (F-COHERENCE)"]
